@@ -177,7 +177,8 @@ func (c *ctx) shape(n cm.Node) {
 			ok := false
 			if len(t) >= 1 && t[0] == '\\' {
 				r := t[1:]
-				ok = len(r) == 0 || string(r) == "\n" || string(r) == "\r" || string(r) == "\r\n"
+				// "a backslash ... with the line ending": the node covers both
+				ok = string(r) == "\n" || string(r) == "\r" || string(r) == "\r\n"
 			} else {
 				i := 0
 				for i < len(t) && t[i] == ' ' {
